@@ -19,6 +19,7 @@ open Bec2Verif.Props.C16
 #print axioms table_sizes
 #print axioms adapter_encrypt_spec
 #print axioms adapter_encrypt_empty
+#print axioms adapter_decrypt_unaligned
 #print axioms adapter_mac_spec
 #print axioms adapter_decrypt_encrypt
 #print axioms adapter_ciphertext_len
